@@ -73,7 +73,7 @@ class Session:
         self.eq.alarms[100] = Alarm(100, "al100", "text one", 3, 5100, 6100)
         self.eq.alarms[101] = Alarm(101, "al101", "second", 65, 5101, 6101)
         self.eq.collection_events[50] = CollectionEvent(50, "ce50", [30])
-        self.counter = itertools.count(1)
+        self.counter = itertools.count(ctx.rng.randint(1, 100000))     # identifies each trigger; no special values favoured
         self.triggered = []       # counter values whose S6F11 must reach the host
         self.received = []        # counter values seen by the host
         self.alarm_events = []    # (alid, alcd) seen by the host
